@@ -279,14 +279,19 @@ def _addrs(tok):
     for a in tok:
         if not isinstance(a, list) or len(a) != 4:
             raise wire.ParseError("address shape")
-        out += [dec_str(a[0]), dec_str(a[2]), dec_str(a[3])]
+        out += [_ws(dec_str(a[0])), dec_str(a[2]), dec_str(a[3])]
     return out
+
+
+def _ws(name):
+    """a display name is a phrase: runs of white space between its words are not significant (RFC 5322)"""
+    return re.sub(r"[ \t]+", " ", name)
 
 
 def _flat(exp):
     out = []
     for a in exp:
-        out += a
+        out += [_ws(a[0])] + a[1:]
     return out
 
 
